@@ -53,12 +53,63 @@ def decoder_fn(name):
     return dict(AutoDecoder.payload_decoder_functions)[name]
 
 
+# ------------------------------------------------------------------ module-level tables must not change by decoding
+TABLE_EVENTS = []      # [(case, description)]: a decode call after which a module-/class-level dict, list or set differs
+_last_tables = None
+
+
+def _tables():
+    import inspect
+    out = {}
+    for mn in ("obis_map", "kaifa", "kamstrup", "aidon", "cosem", "dlde", "obis", "autodecoder"):
+        try:
+            m = importlib.import_module("han." + mn)
+        except Exception:  # noqa
+            continue
+        for k, v in list(vars(m).items()):
+            if k.startswith("__"):
+                continue
+            if isinstance(v, (dict, list, set)):
+                out[f"{mn}.{k}"] = v
+            elif inspect.isclass(v) and getattr(v, "__module__", "") == m.__name__:
+                for ck, cv in list(vars(v).items()):
+                    if not ck.startswith("__") and isinstance(cv, (dict, list, set)):
+                        out[f"{mn}.{k}.{ck}"] = cv
+    return out
+
+
+def _tables_state():
+    res = {}
+    for k, v in _tables().items():
+        try:
+            res[k] = repr(sorted(v.items(), key=repr)) if isinstance(v, dict) else repr(v)
+        except Exception:  # noqa
+            res[k] = "?"
+    return res
+
+
+def tables_changed_by(case):
+    """call after every decode: records when the call changed a module-level table (decoding must be a function of the
+    payload and the AutoDecoder's remembered index only - the tables are constants of the model)"""
+    global _last_tables
+    cur = _tables_state()
+    if _last_tables is not None and cur != _last_tables:
+        names = sorted(k for k in set(cur) | set(_last_tables) if cur.get(k) != _last_tables.get(k))
+        TABLE_EVENTS.append((case, "decoding changed the module-level table(s) " + ", ".join(names)
+                             + " - later results depend on what was decoded before"))
+    _last_tables = cur
+
+
 def impl_decode(name, payload: bytes) -> str:
     logging.disable(logging.CRITICAL)
+    if _last_tables is None:
+        tables_changed_by(None)
     try:
         return render_dict(decoder_fn(name)(payload))
     except Exception as ex:  # noqa
         return exc_name(ex)
+    finally:
+        tables_changed_by({"op": "tables", "decoder": name, "payloads": [bytes(payload).hex()]})
 
 
 # one genuine message per decoder (spec-encoded lists, a P1 line): decoding it on a fresh AutoDecoder makes that
@@ -103,17 +154,22 @@ def remembered(a):
 
 
 def impl_auto(prev, payloads):
+    if _last_tables is None:
+        tables_changed_by(None)
     try:
         a = new_autodecoder(prev)
     except PrimerFailed as ex:
         return "EXC primer-" + str(ex).replace(" ", "_")
+    tables_changed_by({"op": "tables", "decoder": "auto", "prev": None, "payloads": [PRIMERS[NAMES[prev]]] if prev is not None else []})
     out = []
-    for p in payloads:
+    for k, p in enumerate(payloads):
         try:
             r = a.decode_message_payload(bytes(p))
         except Exception as ex:  # noqa
             out.append("EXC " + exc_name(ex))
             break
+        finally:
+            tables_changed_by({"op": "tables", "decoder": "auto", "prev": prev, "payloads": [bytes(x).hex() for x in payloads[:k + 1]]})
         try:
             idx = remembered(a)
         except Exception as ex:  # noqa
@@ -121,6 +177,22 @@ def impl_auto(prev, payloads):
             break
         out.append(("None" if r is None else render_dict(r)) + " @" + ("N" if idx is None else str(idx)))
     return " ; ".join(out)
+
+
+def replay_tables(case):
+    """replay of a 'tables' case: decode the payloads in a fresh state and report whether a table changed"""
+    global _last_tables
+    _last_tables = None
+    del TABLE_EVENTS[:]
+    if case["decoder"] == "auto":
+        impl_auto(case.get("prev"), [bytes.fromhex(x) for x in case["payloads"]])
+    else:
+        for x in case["payloads"]:
+            impl_decode(case["decoder"], bytes.fromhex(x))
+    for _, what in TABLE_EVENTS:
+        print("REPLAY property failure:", what)
+    print("REPLAY", "fails" if TABLE_EVENTS else "passes")
+    return 1 if TABLE_EVENTS else 0
 
 
 _fixtures = None
